@@ -92,13 +92,3 @@ fn c11_q_new_palette_then_legacy_0011() {
 fn c11_t_legacy_0011_then_new_palette() {
     precedence(false, 0x0011);
 }
-
-/// the same precedence case on the REAL hash maps (no side-table model): catches a new palette being merged into
-/// the legacy one instead of replacing it, which the side-table model cannot see (creation empties the table)
-#[kani::proof]
-#[kani::unwind(18)]
-#[kani::stub(alloc::fmt::format, crate::vklib::empty_format)]
-#[kani::stub(std::hash::RandomState::new, crate::vklib::fixed_random_state)]
-fn c11_t_legacy_then_new_palette_real_maps() {
-    precedence(false, 0x0004);
-}
